@@ -130,10 +130,16 @@ type crashPlan struct {
 	Ops    []bt.Op
 	KillAt map[int]string // step index (1-based, after that step's reply) -> "boundary"; or before issuing step i: "<point>#<n>" meaning restart the child armed to die inside step i
 	ArmAt  map[int]string
+	// Parallel > 0: not a sequential program but that many rounds of concurrent schema changes on different tables,
+	// each followed by a kill
+	Parallel int
 }
 
 // runCrashProgram drives a real emulator process through the program, killing and restarting it as planned; returns the trace.
 func runCrashProgram(tr int, plan crashPlan) []bt.Op {
+	if plan.Parallel > 0 {
+		return runParallelMetaProgram(tr, plan.Parallel)
+	}
 	dir := tmpDir()
 	defer os.RemoveAll(dir)
 	out := []bt.Op{{Ev: "Reset", Tr: tr}}
@@ -228,11 +234,86 @@ func runCrashProgram(tr int, plan crashPlan) []bt.Op {
 	return out
 }
 
+// runParallelMetaProgram: schema changes on DIFFERENT tables issued at the same moment, then a kill and a restart:
+// requests on different tables commute, so the recovered state must be the one all acknowledged requests produce in
+// any order (they are logged in the order of their replies). What one table's persistence does must not disturb
+// another's.
+func runParallelMetaProgram(tr int, rounds int) []bt.Op {
+	dir := tmpDir()
+	defer os.RemoveAll(dir)
+	out := []bt.Op{{Ev: "Reset", Tr: tr}}
+	parent := "projects/p/instances/i"
+	ch, err := startChild(dir, "", []string{parent})
+	if err != nil {
+		return append(out, bt.Op{Ev: "Crash", Tr: tr, I: 1, Started: false, Point: "initial start: " + err.Error(), Obs: &bt.Obs{}})
+	}
+	defer func() {
+		if ch != nil {
+			ch.kill()
+		}
+	}()
+	step := 0
+	const ntab = 6
+	tname := func(i int) j.B { return j.S(fmt.Sprintf("%s/tables/par%d", parent, i)) }
+	for i := 0; i < ntab; i++ {
+		step++
+		op := bt.Op{Ev: "CreateTable", T: tname(i), Parent: j.S(parent), Tr: tr, I: step, Fams: []bt.FamDef{{F: j.S("f"), Rule: bt.Rule{T: "none"}}}}
+		ch.srv.Exec(&op)
+		op.Obs = ch.srv.Observe()
+		out = append(out, op)
+	}
+	for r := 0; r < rounds; r++ {
+		var mu sync.Mutex
+		var wg sync.WaitGroup
+		var done []bt.Op
+		for i := 0; i < ntab; i++ {
+			wg.Add(1)
+			go func(i int) {
+				defer wg.Done()
+				kind := "create"
+				if r%2 == 1 {
+					kind = "drop"
+				}
+				op := bt.Op{Ev: "ModifyFamilies", T: tname(i), Mods: []bt.Mod{{K: kind, F: j.S(fmt.Sprintf("h%d", i)), Rule: bt.Rule{T: "maxver", N: 1 + i}}}}
+				ch.srv.Exec(&op)
+				mu.Lock()
+				done = append(done, op)
+				mu.Unlock()
+			}(i)
+		}
+		wg.Wait()
+		for _, op := range done {
+			step++
+			op.Tr, op.I = tr, step
+			op.Obs = &bt.Obs{Skip: true}
+			out = append(out, op)
+		}
+		step++
+		parents := ch.srv.Parents()
+		ch.kill()
+		n, err := startChild(dir, "", parents)
+		ev := bt.Op{Ev: "Crash", Tr: tr, I: step, Point: "boundary after concurrent schema changes", Inflight: &bt.Op{Ev: "none"}, Started: err == nil, Obs: &bt.Obs{}}
+		if err != nil {
+			ev.Point += " / restart failed: " + err.Error()
+			out = append(out, ev)
+			ch = nil
+			return out
+		}
+		ch = n
+		ev.Obs = ch.srv.Observe()
+		out = append(out, ev)
+	}
+	return out
+}
+
 func genCrashProgram(r *rand.Rand) crashPlan {
 	g := gen{r}
-	tables := []j.B{j.S("projects/p/instances/i/tables/t1"), j.S("projects/p/instances/i/tables/t2"), j.S("projects/p/instances/i2/tables/t1")}
+	// table ids that are string prefixes of each other (t, t2, t.x) under one instance, and the same id under an
+	// instance whose name extends the first one's: what is stored under one table's name must not be taken for,
+	// or removed with, another's
+	tables := []j.B{j.S("projects/p/instances/i/tables/t"), j.S("projects/p/instances/i/tables/t2"), j.S("projects/p/instances/i2/tables/t"), j.S("projects/p/instances/i/tables/t.x")}
 	parentOf := func(t j.B) j.B {
-		if string(t) == "projects/p/instances/i2/tables/t1" {
+		if string(t) == "projects/p/instances/i2/tables/t" {
 			return j.S("projects/p/instances/i2")
 		}
 		return j.S("projects/p/instances/i")
@@ -318,7 +399,7 @@ func checkC08(c *Ctx) {
 		plans[i] = genCrashProgram(r)
 	}
 	// every instrumented point at least once, in a fixed small program
-	base := []bt.Op{createOp(btTable), {Ev: "MutateRow", T: btTable, K: j.S("a"), Muts: []bt.Mut{{M: "set", F: j.S("f"), Q: j.S("q"), Ts: 1000, V: j.S("x")}}, Now: 5000}}
+	base := []bt.Op{createOp(btTable), {Ev: "MutateRow", T: btTable, K: j.S("a"), Muts: []bt.Mut{{M: "set", F: j.S("f"), Q: j.S("q"), Ts: 1000, V: j.S("x")}, {M: "set", F: j.S("g"), Q: j.S("q"), Ts: 1000, V: j.S("x")}}, Now: 5000}}
 	tail := []bt.Op{{Ev: "MutateRow", T: btTable, K: j.S("b"), Muts: []bt.Mut{{M: "set", F: j.S("f"), Q: j.S("q"), Ts: 1000, V: j.S("y")}}, Now: 5000}}
 	for _, pt := range []string{"SetTableMeta.afterMkdir", "SetTableMeta.afterTmpWrite", "SetTableMeta.afterRename", "Create.afterMeta", "newDiskDb.afterRemoveAll", "newDiskDb.afterOpen", "Clear.afterClose"} {
 		for _, victim := range []bt.Op{createOp(btTable2), {Ev: "ModifyFamilies", T: btTable, Mods: []bt.Mod{{K: "create", F: j.S("h"), Rule: bt.Rule{T: "maxver", N: 2}}}}, {Ev: "DropRowRange", T: btTable, All: true},
@@ -336,6 +417,14 @@ func checkC08(c *Ctx) {
 		plans = append(plans, crashPlan{Ops: []bt.Op{createOp(btTable), base[1], {Ev: "DeleteTable", T: btTable}, createOp(btTable), tail[0]},
 			ArmAt: map[int]string{3: "Delete.afterMetaRemove#1", 4: pt}, KillAt: map[int]string{5: "boundary"}})
 	}
+	nPar, rounds := 4, 6
+	if !c.Quick() {
+		nPar, rounds = 40, 12
+	}
+	for i := 0; i < nPar; i++ {
+		plans = append(plans, crashPlan{Parallel: rounds})
+	}
+	c.Extra("concurrent_schema_change_programs", nPar)
 	traces := make([][]bt.Op, len(plans))
 	var wg sync.WaitGroup
 	sem := make(chan struct{}, 12)
@@ -395,12 +484,12 @@ func checkC08(c *Ctx) {
 		plan := plans[r.Tr-1]
 		again := 0
 		var lastTr []bt.Op
-		var lastRj btReject
+		var lastRjs []btReject
 		for t := 0; t < 2; t++ {
 			tr := runCrashProgram(1, plan)
 			if x, _, err := validateBt(encodeTrace(tr)); err == nil && len(x) > 0 {
 				again++
-				lastTr, lastRj = tr, x[0]
+				lastTr, lastRjs = tr, x
 			}
 		}
 		if again == 0 {
@@ -413,26 +502,34 @@ func checkC08(c *Ctx) {
 			c.Inconclusive("C08: program %d was rejected at step %d (%s %s: %s) but two re-executions were accepted", r.Tr, r.I, r.Ev, pt, r.Why)
 			continue
 		}
-		var ev *bt.Op
-		for k := range lastTr {
-			if lastTr[k].I == lastRj.I && lastTr[k].Ev == lastRj.Ev {
-				ev = &lastTr[k]
+		// every rejection of the re-executed program is reported (a known finding early in a program must not hide
+		// a different violation later in it)
+		for _, lastRj := range lastRjs {
+			var ev *bt.Op
+			for k := range lastTr {
+				if lastTr[k].I == lastRj.I && lastTr[k].Ev == lastRj.Ev {
+					ev = &lastTr[k]
+				}
 			}
+			id := ""
+			what := fmt.Sprintf("C08: step %d (%s: %s) of the recorded program is not a behaviour of the specification", lastRj.I, lastRj.Ev, lastRj.Why)
+			if ev != nil && ev.Ev == "Crash" {
+				what = fmt.Sprintf("C08: after the kill at step %d (%s) the restarted emulator does not serve the acknowledged state (%s)", lastRj.I, ev.Point, lastRj.Why)
+				id = classifyCrash(lastRj, ev)
+			}
+			c.Violation(id, what, map[string]interface{}{"kind": "bt-crash", "program": stripProg(plan.Ops), "arm_at": plan.ArmAt, "kill_after": plan.KillAt, "parallel_rounds": plan.Parallel, "failing_step": lastRj.I, "observed_event": ev})
 		}
-		id := ""
-		what := fmt.Sprintf("C08: step %d (%s: %s) of the recorded program is not a behaviour of the specification", lastRj.I, lastRj.Ev, lastRj.Why)
-		if ev != nil && ev.Ev == "Crash" {
-			what = fmt.Sprintf("C08: after the kill at step %d (%s) the restarted emulator does not serve the acknowledged state (%s)", lastRj.I, ev.Point, lastRj.Why)
-			id = classifyCrash(plan, ev, lastTr)
-		}
-		c.Violation(id, what, map[string]interface{}{"kind": "bt-crash", "program": stripProg(plan.Ops), "arm_at": plan.ArmAt, "kill_after": plan.KillAt, "failing_step": lastRj.I, "observed_event": ev})
 	}
 	c.Assume("TLC and the Json module are trusted; the emulator is a real child process (bin/cbtemulator, built from the working tree with -tags verif) killed with SIGKILL; power loss (unsynced writes) is not modelled: the property speaks of stopping and killing the process")
 	c.Assume("states in the middle of os.RemoveAll are not produced (hooks cannot reach inside it)")
 }
 
-// classifyCrash names the known finding a rejected recovery belongs to, if any (by the specific history that fails).
-func classifyCrash(plan crashPlan, ev *bt.Op, tr []bt.Op) string {
+// classifyCrash names the known finding a rejected recovery belongs to, if any: the trace specification itself says
+// when the recovered state is exactly the one a listed deviation describes (BtTrace, Crash event).
+func classifyCrash(rj btReject, ev *bt.Op) string {
+	if rj.Why == "Dev_FamilyDropTornByCrash" && ev.HasInflight && ev.Inflight != nil && ev.Inflight.Ev == "ModifyFamilies" {
+		return "Dev_FamilyDropTornByCrash"
+	}
 	return ""
 }
 
@@ -442,11 +539,12 @@ func init() {
 			Program []bt.Op        `json:"program"`
 			ArmAt   map[int]string `json:"arm_at"`
 			KillAt  map[int]string `json:"kill_after"`
+			Par     int            `json:"parallel_rounds"`
 		}
 		if err := json.Unmarshal(raw, &cs); err != nil {
 			return false, "inconclusive: " + err.Error()
 		}
-		plan := crashPlan{Ops: cs.Program, KillAt: cs.KillAt, ArmAt: cs.ArmAt}
+		plan := crashPlan{Ops: cs.Program, KillAt: cs.KillAt, ArmAt: cs.ArmAt, Parallel: cs.Par}
 		msg := "accepted: three re-executions of the program with its kill plan are behaviours of the specification"
 		for t := 0; t < 3; t++ {
 			tr := runCrashProgram(1, plan)
